@@ -596,6 +596,11 @@ func runC09(e *env) {
 		c09Replay(e)
 		return
 	}
+	if diffs := c09PackageStateDiff(e); len(diffs) > 0 {
+		e.res.Note("package-level state of the sources differs from the reviewed lists (bin/c09_pkgstate_reviewed.json); the race search runs with three times the budget: %s", strings.Join(firstN(diffs, 40), "; "))
+		e.res.Histogram["package-state differs from the reviewed lists (entries)"] += len(diffs)
+		e.scale *= 3
+	}
 	t0 := time.Now()
 	cases := c09GenCases(e)
 	tGen := time.Since(t0)
